@@ -12,3 +12,4 @@ pub mod typesys;
 pub mod depth;
 pub mod introspect;
 pub mod execvalid;
+pub mod order;
